@@ -398,45 +398,65 @@ fn unary_empty_selection(op: CmpOperator, variable_head: bool) {
     std::mem::forget(query);
 }
 
-macro_rules! unary_harness {
-    ($name:ident, $op:expr) => {
+/// one harness = ONE call of unary_operation on a single selected value; operator-not and prefix-not are symbolic
+macro_rules! unary_single {
+    ($name:ident, $op:expr, $kind:expr, $var:expr) => {
         #[cfg_attr(kani, kani::proof)]
-        #[cfg_attr(kani, kani::unwind(11))]
+        #[cfg_attr(kani, kani::unwind(3))]
         #[cfg_attr(kani, kani::stub(alloc::fmt::format, fmt_stub))]
         #[cfg_attr(kani, kani::stub(fancy_regex::Regex::new, regex_new_stub))]
         #[cfg_attr(verif_replay, test)]
         fn $name() {
             lib_only!();
-            let mut kind = 0u8;
-            while kind <= 8 {
-                unary_one($op, kind, false);
-                kind += 1;
-            }
-            unary_empty_selection($op, false);
+            unary_one($op, $kind, $var);
         }
     };
 }
-unary_harness!(k_unary_exists, CmpOperator::Exists);
-unary_harness!(k_unary_empty, CmpOperator::Empty);
-unary_harness!(k_unary_is_string, CmpOperator::IsString);
-unary_harness!(k_unary_is_list, CmpOperator::IsList);
-unary_harness!(k_unary_is_map, CmpOperator::IsMap);
-unary_harness!(k_unary_is_bool, CmpOperator::IsBool);
-unary_harness!(k_unary_is_int, CmpOperator::IsInt);
-unary_harness!(k_unary_is_float, CmpOperator::IsFloat);
-unary_harness!(k_unary_is_null, CmpOperator::IsNull);
-
-/// the result-set special case: `%v empty` / `%v !empty` on a bare variable
-#[cfg_attr(kani, kani::proof)]
-#[cfg_attr(kani, kani::stub(alloc::fmt::format, fmt_stub))]
-#[cfg_attr(kani, kani::stub(fancy_regex::Regex::new, regex_new_stub))]
-#[cfg_attr(kani, kani::unwind(4))]
-#[cfg_attr(verif_replay, test)]
-fn k_unary_empty_on_variable() {
-    lib_only!();
-    unary_one(CmpOperator::Empty, 0, true);
-    unary_one(CmpOperator::Empty, 5, true);
-    unary_one(CmpOperator::Empty, 8, true);
-    unary_empty_selection(CmpOperator::Empty, true);
-    unary_empty_selection(CmpOperator::Exists, true);
+macro_rules! unary_empty_sel {
+    ($name:ident, $op:expr, $var:expr) => {
+        #[cfg_attr(kani, kani::proof)]
+        #[cfg_attr(kani, kani::unwind(3))]
+        #[cfg_attr(kani, kani::stub(alloc::fmt::format, fmt_stub))]
+        #[cfg_attr(kani, kani::stub(fancy_regex::Regex::new, regex_new_stub))]
+        #[cfg_attr(verif_replay, test)]
+        fn $name() {
+            lib_only!();
+            unary_empty_selection($op, $var);
+        }
+    };
 }
+// value kinds: 0 Int, 1 empty String, 2 non-empty String, 3 empty List, 4 non-empty List, 5 Null, 6 Bool, 7 Float, 8 UnResolved
+unary_single!(k_un_exists_int, CmpOperator::Exists, 0u8, false);
+unary_single!(k_un_exists_unres, CmpOperator::Exists, 8u8, false);
+unary_single!(k_un_empty_str0, CmpOperator::Empty, 1u8, false);
+unary_single!(k_un_empty_str1, CmpOperator::Empty, 2u8, false);
+unary_single!(k_un_empty_int_err, CmpOperator::Empty, 0u8, false);
+unary_single!(k_un_empty_unres, CmpOperator::Empty, 8u8, false);
+unary_single!(k_un_isstring_str, CmpOperator::IsString, 2u8, false);
+unary_single!(k_un_isstring_int, CmpOperator::IsString, 0u8, false);
+unary_single!(k_un_isint_unres, CmpOperator::IsInt, 8u8, false);
+unary_empty_sel!(k_un_exists_nosel, CmpOperator::Exists, false);
+// the result-set special case: `%v empty` / `%v !empty` on a bare variable
+unary_single!(k_un_var_empty_int, CmpOperator::Empty, 0u8, true);
+unary_single!(k_un_var_empty_null, CmpOperator::Empty, 5u8, true);
+unary_single!(k_un_var_empty_unres, CmpOperator::Empty, 8u8, true);
+unary_empty_sel!(k_un_var_empty_nosel, CmpOperator::Empty, true);
+// thorough
+unary_single!(k_un_empty_list0, CmpOperator::Empty, 3u8, false);
+unary_single!(k_un_empty_list1, CmpOperator::Empty, 4u8, false);
+unary_single!(k_un_empty_null_err, CmpOperator::Empty, 5u8, false);
+unary_single!(k_un_empty_bool, CmpOperator::Empty, 6u8, false);
+unary_single!(k_un_empty_float_err, CmpOperator::Empty, 7u8, false);
+unary_single!(k_un_islist_list, CmpOperator::IsList, 4u8, false);
+unary_single!(k_un_islist_int, CmpOperator::IsList, 0u8, false);
+unary_single!(k_un_ismap_int, CmpOperator::IsMap, 0u8, false);
+unary_single!(k_un_isbool_bool, CmpOperator::IsBool, 6u8, false);
+unary_single!(k_un_isbool_int, CmpOperator::IsBool, 0u8, false);
+unary_single!(k_un_isint_int, CmpOperator::IsInt, 0u8, false);
+unary_single!(k_un_isint_str, CmpOperator::IsInt, 2u8, false);
+unary_single!(k_un_isfloat_float, CmpOperator::IsFloat, 7u8, false);
+unary_single!(k_un_isfloat_int, CmpOperator::IsFloat, 0u8, false);
+unary_single!(k_un_isnull_null, CmpOperator::IsNull, 5u8, false);
+unary_single!(k_un_isnull_int, CmpOperator::IsNull, 0u8, false);
+unary_single!(k_un_exists_null, CmpOperator::Exists, 5u8, false);
+unary_empty_sel!(k_un_var_exists_nosel, CmpOperator::Exists, true);
